@@ -247,7 +247,7 @@ Fixpoint sewb (fuel : nat) (P : simplex -> V -> bool) (maxd : Z) (st : bstate) (
 Definition exp_blockers (P : simplex -> V -> bool) (fx : bool) (st : state) (d : Z) : state * cplx :=
   if fx && (d <=? 1) then (st, [])
   else
-    let fuel := S (length (tree st)) in
+    let fuel := (S (length (tree st)) + Z.to_nat d)%nat in
     let r := fold_left (fun (b : bstate) (e : Z * V * trie) =>
                           let '(x, w, Node c) := e in
                           match c with [] => b | _ :: _ => sewb fuel P d b [x] (d - 1) end)
